@@ -313,7 +313,7 @@ def tie(ctx):
     for v in violations:
         firstv.setdefault(v["signature"], v)
     return {"families": fam, "violations": list(firstv.values()), "evaluations": len(metas) + stats["cli_runs"], "distinct_nontrivial": len(distinct),
-            "rule": "simulated BAMs over 1-2 generated genes (2-3 planted copies, unequal depth, read length 40-100, optional multi-substitutions) genotyped through the real command line with --debug, the archive genotyped again; gap in {0,0.1,0.3}; plus per gene the pickled dump compared with the model; distinct by (gene database, sample index)",
+            "rule": "simulated BAMs over 1-2 generated genes (2-3 planted copies, unequal depth, read length 40-100, optional multi-substitutions) genotyped through the real command line with --debug, the archive genotyped again; gap in {0,0.1,0.3}, a quarter of the runs with indelpost=false; three simulated copies of CYP2D6 under the named profiles wxs / exome / wgs; plus per gene the pickled dump compared with the model; distinct by (gene database, sample index)",
             "samples": samples, "stats": dict(stats)}
 
 
